@@ -56,10 +56,20 @@ Definition run_ulam2 (a : dat) : dat :=
   (* the implementation returns the transposed operator *)
   with_meta (ttranspose false [true; true] (@ulam2_cores ZIring s1 s2 ts uniq inv)).
 
+Definition trans3_of_dat (d : dat) : trans3 :=
+  (as_nat (dnth 0 d), as_nat (dnth 1 d), as_nat (dnth 2 d), as_nat (dnth 3 d), as_nat (dnth 4 d), as_nat (dnth 5 d)).
+Definition pairs_of_dat (d : dat) : list (nat * nat) := map (fun p => (as_nat (dnth 0 p), as_nat (dnth 1 p))) (as_list d).
+Definition run_ulam3 (a : dat) : dat :=
+  let s1 := as_nat (dnth 0 a) in let s2 := as_nat (dnth 1 a) in let s3 := as_nat (dnth 2 a) in
+  let ts := map trans3_of_dat (as_list (dnth 3 a)) in
+  with_meta (ttranspose false [true; true; true]
+               (@ulam3_cores ZIring s1 s2 s3 ts (pairs_of_dat (dnth 4 a)) (as_nats (dnth 5 a)) (pairs_of_dat (dnth 6 a)) (as_nats (dnth 7 a)))).
+
 Definition run_C12 (c : dat) : dat :=
   match as_Z (dnth 0 c) with
   | 1 => run_slim (dnth 1 c)
   | 2 => run_ulam2 (dnth 1 c)
+  | 3 => run_ulam3 (dnth 1 c)
   | _ => L []
   end%Z.
 Definition check_C12 (c : dat) : Z := if dat_eqb (run_C12 c) (dnth 2 c) then 0%Z else 1%Z.
